@@ -823,6 +823,24 @@ theorem C05_instance_no_extra_ammo (discard : Bool) (n : Nat) (ps : List Pass) (
     (C05_instance_accounting discard n ps).2.2.1
   exact ⟨h1, by omega⟩
 
+/-- without the hypothesis the claim is false: with a SHARED schedule an instance may acquire an ammo for which the
+others take the token between its `Left()` and its `Next()`; it releases that ammo unshot (true of the code: the comment in
+instance.go promises "not consume extra ammo" only "in case of per instance schedule"); what holds in general is the bound
+`acq ≤ taken + 1` of `C05_instance_accounting` -/
+def C05_instance_no_extra_ammo_statement : Prop :=
+  ∀ (discard : Bool) (n : Nat) (ps : List Pass),
+    (loop discard { left := n } ps).1.acq ≤ (loop discard { left := n } ps).1.taken
+
+theorem C05_instance_no_extra_ammo_counterexample : ¬ C05_instance_no_extra_ammo_statement := by
+  intro h
+  have := h false 3 [{}, { stolen2 := 2 }]
+  revert this
+  decide
+
+theorem C05_instance_no_extra_ammo_partial (discard : Bool) (n : Nat) (ps : List Pass) :
+    (loop discard { left := n } ps).1.acq ≤ (loop discard { left := n } ps).1.taken + 1 :=
+  (C05_instance_accounting discard n ps).2.2.2
+
 /-- termination: a loop over a schedule with `n` tokens returns within `n + 1` passes, whatever happens in them
 (every pass that does not return takes a token or leaves nothing to come back for). -/
 theorem C05_instance_terminates (discard : Bool) (n : Nat) (ps : List Pass) (h : n < ps.length) :
